@@ -56,6 +56,7 @@ ASSUMPTIONS = ["input disks are oriented manifold triangulations (single border 
 
 TOL = 1e-9
 AREA_TOL = 1e-13
+_FROZEN = False
 
 
 # ============================================================================================ generators
@@ -421,10 +422,11 @@ def read_uvs(t, m, ref, corners, ctx, tag, other_had=False):
     rows = []
     for i in range(n):
         x = np.asarray(t.uvs[i], dtype=float)
-        if not ctx.check(x.shape == (2,) and bool(np.all(np.isfinite(x))), "uv:finite",
-                         f"{tag}: uv entry {i} = {x!r} is not a finite 2-vector"):
+        if x.shape != (2,) or not np.all(np.isfinite(x)):
+            ctx.check(False, "uv:finite", f"{tag}: uv entry {i} = {x!r} is not a finite 2-vector")
             return None
         rows.append(x)
+    ctx.check(True, "uv:finite")
     A = np.array(rows).reshape(-1, 2)
     if not corners:
         return A
@@ -632,8 +634,15 @@ def fn_embed(case, ctx):
         for kk in ("_worker", "_cb"):
             c.pop(kk, None)
     del m, meshes, workers, other
-    gc.collect()
+    global _FROZEN
+    if not _FROZEN:
+        # one-time: park everything allocated so far (Hypothesis, numpy, scipy, ...) in the permanent generation, so that the full
+        # collections below only traverse the objects of the cases (90 ms -> ~1 ms each)
+        gc.collect()
+        gc.freeze()
+        _FROZEN = True
     for r in range(rounds):
+        gc.collect()
         rnd = np.random.RandomState(int(case.get("recycle_seed", 0)) + 17 * r)
         perm = rnd.permutation(nV)                      # perm[old] = new
         V2 = [None] * nV
@@ -667,7 +676,6 @@ def fn_embed(case, ctx):
             return
         cfgr.pop("_worker", None)
         del mr, UVr
-        gc.collect()
 
 
 def run_once(case, cfg, m, corners, geo, ctx, tag, other_had, reuse_cb=None, flat_now=True):
